@@ -51,6 +51,8 @@ func (v *value) Interface() any     { return v.value }
 func (v *value) Len() int           { return len(v.Children) }
 func (v *value) IsNil() bool        { return v.isNil }
 
+var fileType = reflect.TypeOf(ast.File{})
+
 func snapshot(v reflect.Value, cmap ast.CommentMap) (val *value) {
 	t := v.Type()
 
@@ -100,6 +102,14 @@ func snapshot(v reflect.Value, cmap ast.CommentMap) (val *value) {
 	case reflect.Struct:
 		children := make([]*value, v.NumField())
 		for i := 0; i < v.NumField(); i++ {
+			if t == fileType && t.Field(i).Name == "Imports" {
+				// File.Imports lists the import specs that File.Decls
+				// holds. Walking it again attributed an import that was
+				// removed to everything between its neighbours in that
+				// list, comments of other import declarations included.
+				children[i] = &value{t: t.Field(i).Type}
+				continue
+			}
 			children[i] = snapshot(v.Field(i), cmap)
 		}
 		return &value{
